@@ -1706,6 +1706,9 @@ func c02Run(c *core.Ctx) {
 }
 
 func c02Replay(c *core.Ctx, payload json.RawMessage) {
+	if c02SecondReplay(c, payload) {
+		return
+	}
 	var k c02Case
 	if err := json.Unmarshal(payload, &k); err != nil {
 		fmt.Println("bad payload:", err)
